@@ -113,6 +113,7 @@ Lemma scan_nonempty_unfold f b pend acc : b <> [] ->
      else if Gen.is_lfn_entry first (nthZ slot 11) then
        let s := parse_lfnslot slot in
        if negb (l_clus s =? 0) then Err EPYFAT
+       else if existsb (lfnslot_eqb s) pend then scan_slots f rest pend acc
        else if existsb (fun x => l_ord x =? l_ord s) pend then Err EPYFAT
        else scan_slots f rest (pend ++ [s]) acc
      else
@@ -124,6 +125,14 @@ Proof. intros H. destruct b; [congruence|reflexivity]. Qed.
 Definition lslot_ok (s:lfnslot) : Prop :=
   slot_ok s /\ l_ord s <> 0 /\ l_ord s <> 229 /\ l_attr s = 15 /\ l_clus s = 0.
 
+Lemma lfnslot_eqb_ord a b : lfnslot_eqb a b = true -> l_ord b = l_ord a.
+Proof. unfold lfnslot_eqb. intros H. repeat (apply andb_true_iff in H; destruct H as [H ?]). apply Z.eqb_eq in H. symmetry. exact H. Qed.
+Lemma no_ord_no_copy s pend : existsb (fun x => l_ord x =? l_ord s) pend = false -> existsb (lfnslot_eqb s) pend = false.
+Proof.
+  intros H. destruct (existsb (lfnslot_eqb s) pend) eqn:E; [|reflexivity]. apply existsb_exists in E. destruct E as (x & Hx & He).
+  apply lfnslot_eqb_ord in He. assert (existsb (fun x => l_ord x =? l_ord s) pend = true); [|congruence].
+  apply existsb_exists. exists x. split; [exact Hx|]. apply Z.eqb_eq. exact He.
+Qed.
 Lemma scan_lfn_step f s rest pend acc :
   lslot_ok s -> existsb (fun x => l_ord x =? l_ord s) pend = false ->
   scan_slots (S f) (ser_lfnslot s ++ rest) pend acc = scan_slots f rest (pend ++ [s]) acc.
@@ -140,7 +149,7 @@ Proof.
   destruct (l_ord s =? 229) eqn:B; [apply Z.eqb_eq in B; contradiction|].
   unfold Gen.is_lfn_entry. rewrite Ha. change Gen.ATTR_LONG_NAME_MASK with 63. change Gen.ATTR_LONG_NAME with 15. change Gen.FREE_DIR_ENTRY_MARK with 229.
   change (Z.land 15 63 =? 15) with true. rewrite B. cbn [andb negb].
-  rewrite Hc. change (0 =? 0) with true. cbn [negb]. rewrite Hd. reflexivity.
+  rewrite Hc. change (0 =? 0) with true. cbn [negb]. rewrite (no_ord_no_copy _ _ Hd), Hd. reflexivity.
 Qed.
 
 Lemma scan_lfn_run ls : forall f rest pend acc,
@@ -406,7 +415,7 @@ Proof.
     destruct (nthZ (firstn 32 (x :: r)) 0 =? Gen.LAST_DIR_ENTRY_MARK); [inversion H; subst; cbn; rewrite app_nil_r; reflexivity|].
     destruct (nthZ (firstn 32 (x :: r)) 0 =? Gen.FREE_DIR_ENTRY_MARK); [eapply IH; exact H|].
     destruct (Gen.is_lfn_entry _ _).
-    + destruct (negb _); [discriminate|]. destruct (existsb _ _); [discriminate|]. eapply IH; exact H.
+    + destruct (negb _); [discriminate|]. destruct (existsb (lfnslot_eqb _) pend); [eapply IH; exact H|]. destruct (existsb _ _); [discriminate|]. eapply IH; exact H.
     + apply IH in H. rewrite H, map_app. cbn [map]. rewrite strip_set, strip_parse, <- app_assoc. reflexivity.
 Qed.
 Corollary scan_count_bound f b acc' pend' stop : scan_slots f b [] [] = Ok (acc', pend', stop) -> (length acc' <= f)%nat /\ (32 * length acc' <= length b)%nat.
@@ -419,4 +428,28 @@ Proof.
   destruct (_ =? Gen.LAST_DIR_ENTRY_MARK); [cbn; lia|].
   destruct (_ =? Gen.FREE_DIR_ENTRY_MARK); [specialize (IH (skipn 32 (x :: r))); lia|].
   destruct (Gen.is_lfn_entry _ _); [specialize (IH (skipn 32 (x :: r))); lia|]. specialize (IH (skipn 32 (x :: r))). cbn [length] in *. lia.
+Qed.
+
+(** a long-name slot repeated verbatim — what a directory rewrite torn by a crash leaves behind when entries were shifted —
+    is ignored by the reader: the set it belongs to still completes *)
+Lemma lfnslot_eqb_refl s : lfnslot_eqb s s = true.
+Proof. unfold lfnslot_eqb. rewrite !Z.eqb_refl, !list_eqb_refl. reflexivity. Qed.
+Theorem scan_repeated_slot f s rest pend acc : lslot_ok s -> In s pend ->
+  scan_slots (S f) (ser_lfnslot s ++ rest) pend acc = scan_slots f rest pend acc.
+Proof.
+  intros (Hok & H0 & H229 & Ha & Hc) Hin.
+  pose proof (ser_lfnslot_length s Hok) as Hl. pose proof (parse_ser_lfnslot s Hok) as Hp.
+  rewrite scan_nonempty_unfold by (destruct (ser_lfnslot s) eqn:E; [simpl in Hl; discriminate|discriminate]).
+  cbv zeta. rewrite (firstn_app_exact _ _ 32 Hl), (skipn_app_exact _ _ 32 Hl), Hl. change (32 <? 32)%nat with false. cbv iota.
+  assert (E0 : nthZ (ser_lfnslot s) 0 = l_ord s) by (rewrite <- Hp at 2; reflexivity).
+  assert (E11 : nthZ (ser_lfnslot s) 11 = l_attr s) by (rewrite <- Hp at 2; reflexivity).
+  rewrite E0, E11, Hp.
+  change Gen.LAST_DIR_ENTRY_MARK with 0. change Gen.FREE_DIR_ENTRY_MARK with 229.
+  destruct (l_ord s =? 0) eqn:A; [apply Z.eqb_eq in A; contradiction|].
+  destruct (l_ord s =? 229) eqn:B; [apply Z.eqb_eq in B; contradiction|].
+  unfold Gen.is_lfn_entry. rewrite Ha. change Gen.ATTR_LONG_NAME_MASK with 63. change Gen.ATTR_LONG_NAME with 15. change Gen.FREE_DIR_ENTRY_MARK with 229.
+  change (Z.land 15 63 =? 15) with true. rewrite B. cbn [andb negb].
+  rewrite Hc. change (0 =? 0) with true. cbn [negb].
+  assert (He : existsb (lfnslot_eqb s) pend = true) by (apply existsb_exists; exists s; split; [exact Hin|apply lfnslot_eqb_refl]).
+  rewrite He. reflexivity.
 Qed.
